@@ -135,8 +135,8 @@ Theorem c07_hex4_is_the_source_stores :
   forall len, hex4 len = map (fun st => hex_digit (N.land (N.shiftr len (snd st)) 15)) src_chunk_hex_stores.
 Proof. exact hex4_is_the_stores. Qed.
 
-Theorem c07_translation_complete : src_translation_problems = 0%nat.
-Proof. exact translation_complete. Qed.
+Theorem c07_translation_complete : src_problems_chunk = 0%nat.
+Proof. exact chunk_translated. Qed.
 
 Print Assumptions c07_size_line_correct.
 Print Assumptions c07_piece_max_ok.
